@@ -25,3 +25,63 @@ package object
 //@   ensures s.x >= 0 && s.y >= 0 ==> r0.x == anc(s.x, hDiff) && r0.y == anc(s.y, hDiff)
 //@   ensures r0.z == anc(s.z, vDiff)
 //@ end
+
+//@ -- C15: points.  Longitude beyond +-180 and latitude beyond +-85.0511287798 are rejected; accepted points keep
+//@ -- longitude and altitude unchanged and the latitude is cut toward zero by less than 1e-10 degrees.
+//@ func (*Point).SetLon
+//@   props C15 C01
+//@   requires p != nil
+//@   assigns p.lon
+//@   ensures [reject] abs(lon) > 180.0 <==> r0 != nil
+//@   ensures [store] r0 == nil ==> p.lon == lon
+//@   ensures [keep] r0 != nil ==> p.lon == old(p.lon)
+//@ end
+
+//@ func (*Point).SetLat
+//@   props C15 C01
+//@   requires p != nil
+//@   assigns p.lat
+//@   -- the limit is compared after the cut, in floating point: decided here up to 2e-10 around the limit
+//@   ensures [reject] abs(lat) >= 85.05112878 ==> r0 != nil
+//@   ensures [accept] abs(lat) <= 85.0511287797 ==> r0 == nil
+//@   ensures [toward-zero] r0 == nil ==> abs(p.lat) <= abs(lat) + 0.00000000000003 && abs(lat) - abs(p.lat) < 0.0000000001 + 0.00000000000003 && (lat >= 0.0 ==> p.lat >= 0.0) && (lat <= 0.0 ==> p.lat <= 0.0)
+//@   ensures [keep] r0 != nil ==> p.lat == old(p.lat)
+//@ end
+
+//@ func NewPoint
+//@   props C15 C01
+//@   fresh r0
+//@   ensures [reject] abs(lon) > 180.0 || abs(lat) >= 85.05112878 ==> r1 != nil
+//@   ensures [accept] abs(lon) <= 180.0 && abs(lat) <= 85.0511287797 ==> r1 == nil
+//@   ensures [store] r1 == nil ==> r0 != nil && r0.lon == lon && r0.alt == alt && abs(lat) - abs(r0.lat) < 0.0000000001 + 0.00000000000003 && abs(r0.lat) <= abs(lat) + 0.00000000000003
+//@ end
+
+//@ -- C15 / C13: tile keys accept zoom levels 0..35 only
+//@ func (*TileXYZ).SetHZoom
+//@   props C15 C13
+//@   requires a != nil
+//@   assigns a.hZoom
+//@   ensures r0 == nil <==> (0 <= hZoom && hZoom <= 35)
+//@   ensures r0 == nil ==> a.hZoom == hZoom
+//@ end
+
+//@ func (*TileXYZ).SetVZoom
+//@   props C15 C13
+//@   requires a != nil
+//@   assigns a.vZoom
+//@   ensures r0 == nil <==> (0 <= vZoom && vZoom <= 35)
+//@   ensures r0 == nil ==> a.vZoom == vZoom
+//@ end
+
+//@ func NewTileXYZ
+//@   props C15 C13
+//@   ensures [zoom-range] r1 == nil <==> (0 <= hZoom && hZoom <= 35 && 0 <= vZoom && vZoom <= 35)
+//@   ensures [fields] r1 == nil ==> r0 != nil && r0.hZoom == hZoom && r0.x == x && r0.y == y && r0.vZoom == vZoom && r0.z == z
+//@   ensures [nil-on-error] r1 != nil ==> r0 == nil
+//@ end
+
+//@ func NewExtendedSpatialID
+//@   props C15 C10
+//@   ensures [ok-iff-wellformed] r1 == nil <==> isext(extendedSpatialID)
+//@   ensures [fields] r1 == nil ==> r0 != nil && r0.hZoom == val(fld(extendedSpatialID, 0)) && r0.x == val(fld(extendedSpatialID, 1)) && r0.y == val(fld(extendedSpatialID, 2)) && r0.vZoom == val(fld(extendedSpatialID, 3)) && r0.z == val(fld(extendedSpatialID, 4))
+//@ end
